@@ -186,6 +186,90 @@ exec_c05(const vcase *vc)
 		if (s < 0 || s > 3)
 			continue;
 		Ctx &c = W.c[s];
+		if (n == "pubjam") {
+			// round 7: the publisher's per-pipe send queue behind a BUSY pipe.  A separate PUB / SUB pair over inproc; the
+			// subscriber's receive callback holds its pipe (the callback of a pending receive runs before the pipe read is
+			// re-armed) while n more messages are published: the first waits in the transport, the others in the send queue
+			// of depth SENDBUF, which drops the OLDEST when it is full - exactly one message per arrival, none early.
+			int n2 = (int) vop_arg(o, 1, 6), sbuf = (int) vop_arg(o, 2, 4);
+			if (n2 < 2 || n2 > 24 || sbuf < 1 || sbuf > 16)
+				continue;
+			static int jamserial = 0;
+			char       url[64];
+			snprintf(url, sizeof url, "inproc://c05-jam-%d", ++jamserial);
+			nng_socket pub, sub;
+			H_OK(nng_pub0_open(&pub));
+			H_OK(nng_sub0_open(&sub));
+			H_OK(nng_socket_set_int(pub, NNG_OPT_SENDBUF, sbuf));
+			H_OK(nng_sub0_socket_subscribe(sub, "", 0));
+			H_OK(nng_listen(pub, url, NULL, 0));
+			H_OK(nng_dial(sub, url, NULL, 0));
+			vs_settle();
+			struct Jam {
+				int      calls = 0;
+				nng_aio *aio   = nullptr;
+			} jam;
+			H_OK(nng_aio_alloc(&jam.aio, [](void *a) {
+				Jam *j = (Jam *) a;
+				if (j->calls++ == 0)
+					nng_msleep(40); // the application is slow: the pipe is not read meanwhile
+			}, &jam));
+			nng_socket_recv(sub, jam.aio);
+			std::vector<uint32_t> sent;
+			for (int q = 0; q <= n2; q++) {
+				uint32_t tag = 0x05a00000u | (uint32_t) (jamserial << 8) | (uint32_t) q;
+				nng_msg *m   = h_msg(tag, 8);
+				uint64_t t0  = vs_now();
+				int      rv  = nng_sendmsg(pub, m, NNG_FLAG_NONBLOCK);
+				VR_CHECK(rv == 0, "C05:pub-send-blocked", "PUB non-blocking send towards a busy subscriber returned %d", rv);
+				VR_CHECK(vs_now() - t0 < 5, "C05:pub-send-slow", "PUB send took %llu virtual ms", (unsigned long long) (vs_now() - t0));
+				sent.push_back(tag);
+				vs_settle();
+			}
+			bool held = jam.calls == 1 && nng_aio_busy(jam.aio);
+			vs_sleep(60);
+			vs_settle();
+			nng_aio_wait(jam.aio);
+			std::vector<uint32_t> got;
+			if (nng_aio_result(jam.aio) == 0) {
+				uint32_t t = 0;
+				nng_msg *m = nng_aio_get_msg(jam.aio);
+				h_msg_tag(m, &t);
+				got.push_back(t);
+				nng_msg_free(m);
+			}
+			for (int q = 0; q < 40; q++) {
+				nng_msg *m = nullptr;
+				if (nng_recvmsg(sub, &m, NNG_FLAG_NONBLOCK) != 0)
+					break;
+				uint32_t t  = 0;
+				int      ok = h_msg_tag(m, &t);
+				nng_msg_free(m);
+				VR_CHECK(ok == 0, "C05:corrupt-message", "message %x corrupted behind a busy pipe", t);
+				got.push_back(t);
+				vs_settle();
+			}
+			nng_aio_free(jam.aio);
+			nng_socket_close(sub);
+			nng_socket_close(pub);
+			// always: an in-order subsequence without duplicates that ends with the newest message
+			size_t pos = 0;
+			for (uint32_t t : got) {
+				while (pos < sent.size() && sent[pos] != t)
+					pos++;
+				VR_CHECK(pos < sent.size(), "C05:reordered-or-duplicated", "the subscriber behind a busy pipe received %x out of order / twice", t);
+				pos++;
+			}
+			VR_CHECK(!got.empty() && got.back() == sent.back(), "C05:missing-delivery", "the newest publication never reached the subscriber behind a busy pipe (%zu of %zu received)", got.size(), sent.size());
+			if (held) {
+				// exact: m0 (callback), m1 (in the transport), then the newest min(n - 1, SENDBUF) of the rest
+				size_t rest = (size_t) n2 - 1, keep = rest < (size_t) sbuf ? rest : (size_t) sbuf;
+				VR_CHECK(got.size() == 2 + keep, "C05:send-queue-depth", "PUB SENDBUF %d, %d messages published behind a busy pipe: the subscriber received %zu, expected %zu (one message lost per arrival on a FULL queue, none earlier)",
+				    sbuf, n2, got.size(), 2 + keep);
+				vr_tag(rest > keep ? "pub_queue_overflow_behind_busy_pipe" : "pub_queue_behind_busy_pipe");
+			}
+			continue;
+		}
 		if (n == "ctxopen") {
 			if (s == 0 || c.open)
 				continue;
@@ -441,8 +525,9 @@ genOp()
 	return gen::exec([]() {
 		std::ostringstream o;
 		int s = *gen::weightedElement<int>({{5, 0}, {3, 1}, {2, 2}, {1, 3}});
-		int k = *gen::weightedElement<int>({{14, 0}, {8, 1}, {4, 2}, {8, 3}, {2, 4}, {3, 5}, {2, 6}, {3, 7}, {1, 8}, {2, 9}});
+		int k = *gen::weightedElement<int>({{14, 0}, {8, 1}, {4, 2}, {8, 3}, {2, 4}, {3, 5}, {2, 6}, {3, 7}, {1, 8}, {2, 9}, {2, 10}});
 		switch (k) {
+		case 10: o << "pubjam 0 " << *pbt::range<int>(2, 12) << " " << *gen::element(1, 2, 3, 4, 4, 8); break;
 		case 0: o << "pub " << *pbt::range<int>(0, 1) << " " << *genBytes(6); break;
 		case 1: o << "sub " << s << " " << *genBytes(4); break;
 		case 2: o << "unsub " << s << " " << *genBytes(3); break;
